@@ -16,6 +16,7 @@ def parseOp (toks : List String) : Option Op :=
   | ["ephstore", a, e] => do some (.ephStore (← a.toNat?) (← e.toNat?))
   | ["ephunstore", a, e] => do some (.ephUnstore (← a.toNat?) (← e.toNat?))
   | ["collect"] => some .collect
+  | ["collectb", a] => a.toNat?.map .collectBorrowed
   | _ => none
 
 def natsStr (l : List Nat) : String := ",".intercalate (l.map toString)
